@@ -74,7 +74,7 @@ func tlcpConn(ccfg, scfg *tlcp.Config, s scen, roots *smx509.CertPool, now time.
 		cvBits: cvBitsOf(s.cli), finOK: true, tlcp: true, roots: roots, now: now}
 	st := srv.ConnectionState()
 	ob := connObs{err: r.SErr, resumed: st.DidResume, peers: len(st.PeerCertificates), chains: len(st.VerifiedChains),
-		req: ci.sf.has(13), alert: alertTok(ci.sf), cliErr: r.CErr}
+		req: reqTok(ci.sf), alert: alertTok(ci.sf), cliErr: r.CErr}
 	if r.TimedOut && ob.err == nil {
 		ob.err = fmt.Errorf("timeout")
 	}
@@ -257,7 +257,7 @@ func tlcpScript(s scen) (string, string) {
 		cvBits: cvBits, finOK: finOK, tlcp: true, roots: st.Root.Pool, now: pki.Now}
 	cs := srv.ConnectionState()
 	ob := connObs{err: serr, resumed: cs.DidResume, peers: len(cs.PeerCertificates), chains: len(cs.VerifiedChains),
-		req: ci.sf.has(13), alert: alertTok(ci.sf), panicked: panicked}
+		req: reqTok(ci.sf), alert: alertTok(ci.sf), panicked: panicked}
 	if !sc.PeerFinishedOK {
 		ob.cliErr = fmt.Errorf("no server Finished")
 	}
